@@ -5,6 +5,7 @@ import os
 from hypothesis import strategies as st
 
 I = st.integers(0, 999)
+MAGIC = st.one_of(st.just(0), st.just(0), st.just(0), st.just(0), st.just(0), st.just(0), st.just(0), st.integers(1, 40))
 REUSE = st.one_of(st.just(0), st.just(0), st.integers(1, 1 << 16))    # non-zero: take a name already used in another directory
 NONE = st.none()
 
@@ -35,18 +36,18 @@ def op(kind, **fields):
 
 
 def add_fp(d=I, ns=NSMASK, length=LEN, rsz=RSZ, ck=st.just(0), file=st.sampled_from([False] * 9 + [True])):
-    return op('add_fp', d=d, ns=ns, len=length, sz=SZ, rsz=rsz, usz=st.integers(0, 4), lead=I, salt=I, mode=FMODE, ck=ck, file=file, reuse=REUSE)
+    return op('add_fp', d=d, ns=ns, len=length, sz=SZ, rsz=rsz, usz=st.integers(0, 4), lead=I, salt=I, mode=FMODE, ck=ck, file=file, reuse=REUSE, magic=MAGIC)
 
 
 def add_dir(d=I, ns=NSMASK, rsz=RSZ, sz=SZ):
-    return op('add_dir', d=d, ns=ns, sz=sz, rsz=rsz, usz=st.integers(0, 4), lead=I, salt=I, mode=DMODE, reuse=REUSE)
+    return op('add_dir', d=d, ns=ns, sz=sz, rsz=rsz, usz=st.integers(0, 4), lead=I, salt=I, mode=DMODE, reuse=REUSE, magic=MAGIC)
 
 
 rm_file = op('rm_file', b=I, j=I)
 rm_dir = op('rm_dir', d=I, ns=st.sampled_from([7, 7, 7, 7, 1, 2, 4, 3]))
 add_link = op('add_link', b=I, j=I, to=I, d=I, sz=SZ, rsz=RSZ, usz=st.integers(0, 4), lead=I, salt=I, reuse=st.one_of(st.just(0), st.integers(1, 1 << 16)))
 rm_link = op('rm_link', b=I, j=I)
-add_sym = op('add_sym', d=I, form=st.integers(0, 3), jol=st.booleans(), tgt=I, sz=SZ, rsz=RSZ, usz=st.integers(0, 4), lead=I, salt=I, reuse=REUSE)
+add_sym = op('add_sym', d=I, form=st.integers(0, 3), jol=st.booleans(), tgt=I, sz=SZ, rsz=RSZ, usz=st.integers(0, 4), lead=I, salt=I, reuse=REUSE, magic=MAGIC)
 rm_sym = op('rm_sym', i=I)
 hide = op('hide', i=I, via=st.integers(0, 1), on=st.sampled_from([1, 1, 0]))
 dup_pvd = op('dup_pvd')
@@ -230,6 +231,8 @@ def any_profile(reopen_ok=False, weights=None, with_manydirs=False):
         table['reloctwins'] = reloctwins(reopen_ok=reopen_ok)
     if 'readd' in w:
         table['readd'] = readd(reopen_ok=reopen_ok)
+    if 'symcomps' in w:
+        table['symcomps'] = symcomps(reopen_ok=reopen_ok)
     alts = []
     for name, n in w.items():
         s = table[name].map(lambda p, name=name: dict(p, profile=name))
@@ -457,6 +460,25 @@ def readd(cfg=None, reopen_ok=False):
         tail_choices.append(reopen)
     return program(c, st.builds(build, st.sampled_from([2, 2, 3]), st.lists(D, min_size=3, max_size=3), st.lists(F, min_size=2, max_size=2), st.booleans(),
                                 st.lists(st.one_of(*mid_choices), min_size=0, max_size=2), st.lists(st.one_of(*tail_choices), min_size=1, max_size=8), st.booleans()))
+
+
+def symcomps(cfg=None, reopen_ok=False):
+    """Symbolic links whose targets consist of many short components: a run of links with consecutive component
+    counts (so that every count in a window of 10-25 occurs), component length 1-3, link names of several sizes
+    (the room the directory record has left for the first SL entry varies with them)."""
+    c = cfg if cfg is not None else cfg_st(rr=st.sampled_from(['1.09', '1.10', '1.12']))
+
+    def build(base, count, clen, head, rsz, lead, salt, form, post):
+        ops = []
+        for i in range(count):
+            ops.append({'k': 'add_sym', 'd': 0, 'form': form, 'jol': False, 'tgt': 0, 'sz': 0, 'rsz': rsz, 'usz': 0, 'lead': lead, 'salt': salt, 'reuse': 0,
+                        'tc': [clen, base + i, head]})
+        return ops + post
+    post_choices = [write, query, rm_sym, add_fp(d=st.just(0), length=SMALL_LEN)]
+    if reopen_ok:
+        post_choices += [reopen]
+    return program(c, st.builds(build, st.integers(1, 110), st.integers(10, 25), st.integers(1, 3), st.integers(0, 5), st.integers(0, 4), I, I,
+                                st.sampled_from([0, 0, 1]), st.lists(st.one_of(*post_choices), min_size=0, max_size=3)))
 
 
 def _recipe(target, sizes, picks):
